@@ -1130,10 +1130,6 @@ class LinearOperator(object):
         # finally \tilde{L}^{-1} = L^{-1} U \tilde{S}^{-1}
         updated_inv_root = current_inv_root.mT.matmul(inner_inv_root)
 
-        if return_triangular:
-            updated_root = TriangularLinearOperator(updated_root)
-            updated_inv_root = TriangularLinearOperator(updated_inv_root)
-
         add_to_cache(new_linear_op, "root_decomposition", RootLinearOperator(updated_root))
         add_to_cache(new_linear_op, "root_inv_decomposition", RootLinearOperator(updated_inv_root))
 
